@@ -399,6 +399,32 @@ def run_case(c):
                     res["v"].append(dict(kind="status-after-clear-and-one-uncorrectable-error", before=before[:4], after=after[:4],
                                          lane_bits=lane, round=rnd))
                     break
+        # ---- counters near the top of their range (state hook: the two count registers are preloaded): further errors must
+        # still be counted, i.e. the counts never go down -- they stop at the maximum
+        k1, k2 = res.get("a_counted_single"), res.get("a_double")
+        if (k1 is not None or k2 is not None) and not res["v"]:
+            top = (1 << len(ecc.sec_errors.status)) - 1
+            yield [ecc.sec_errors.status.eq(top - 1), ecc.ded_errors.status.eq(top - 1)]
+            yield
+            prev = yield counters
+            for rep in range(3):
+                for kk in (k1, k2):
+                    if kk is None:
+                        continue
+                    yield from do_cmd(0, kk)
+                    if state["done"]:
+                        return
+                    yield from wait(4)
+                    now = yield counters
+                    if now[0] < prev[0] or now[1] < prev[1]:
+                        res["v"].append(dict(kind="error-count-went-down-near-the-top-of-its-range", before=[hex(prev[0]), hex(prev[1])],
+                                             after=[hex(now[0]), hex(now[1])], lane_bits=lane))
+                        state["done"] = True
+                        return
+                    prev = now
+            if (k1 is not None and prev[0] != top) or (k2 is not None and prev[1] != top):
+                res["v"].append(dict(kind="error-count-did-not-reach-its-maximum", counts=[hex(prev[0]), hex(prev[1])], lane_bits=lane))
+            res["saturation_judged"] = 1
         state["done"] = True
 
     cycles, reason = run_sim(dut, mem_procs + [main()], lambda: state["done"], 400000, wall_limit=2400)
@@ -420,7 +446,7 @@ def run_case(c):
         if len(pos) > 1:
             v.append(dict(kind="uncounted-position-differs-between-lanes", positions=sorted(pos)))
     st = dict(reads_or_writes_judged=res["judged"], cycles=cycles, code_bits=code_bits, slot_bits=slot, lanes=BC,
-              consecutive_faulted_beats=res.get("consecutive_beats", 0), clears_judged=res.get("clears_judged", 0), single_positions_flipped=len(res["positions"]), uncounted_single_positions=sorted(set(p for ps in res["sec_exceptions"].values() for p in ps)))
+              consecutive_faulted_beats=res.get("consecutive_beats", 0), clears_judged=res.get("clears_judged", 0), saturation_judged=res.get("saturation_judged", 0), single_positions_flipped=len(res["positions"]), uncounted_single_positions=sorted(set(p for ps in res["sec_exceptions"].values() for p in ps)))
     if cls == "single":
         nontrivial = len(res["positions"]) >= code_bits * len(c.get("lanes_subset") or range(BC))
     else:
